@@ -998,4 +998,5 @@ static void ind_gen(Ctx& ctx) {
     });
 }
 
+VK_FRESH_THREADS;
 VK_MAIN("C06")
